@@ -1,6 +1,6 @@
 (* C08 driver.  Cases (see harness/h_c08.cpp for the implementation side):
      itoa <v>                 itoa<int>(v) then fast_atoi<int>(text)       -> "<text> <parsed>"
-     itoaS <v>                the same under the C++ rules (UBSan build): "<text> <parsed>" | "UB-SHIFT-NEGATIVE" | "UB-SIGNED-OVERFLOW"
+     itoaS <v>                the same under the C++ rules (UBSan build): "<text> <parsed>" | "UB" (a sanitizer report in fast_atoi)
      utoa <v>                 itoa<unsigned>(v) then fast_atoi<unsigned>   -> "<text> <parsed>"
      atoi <i|u|s> <term> <hex text>   fast_atoi<T>(text, term)             -> "<value>"
      dtoa <p> <hex16 bits>    modp_dtoa(v, p) then fast_atof(text)         -> "<text> <hex16>" | "EXP"
@@ -58,13 +58,21 @@ let () = run_protocol (fun case impl ->
   | ["itoa"; v] -> int_case int_roundtrip (z_of_string v) impl
   | ["utoa"; v] -> int_case uint_roundtrip (z_of_string v) impl
   | ["itoaS"; v] ->
+    (* Where the checked model reports undefined behaviour the platform has two observable outcomes:
+       the sanitizer stops the process (token) or the operation wraps in two's complement (the result
+       of the wrapping model).  The model admits exactly these two and sides with the implementation
+       when it shows one of them; the oracle then judges that outcome. *)
     let v = z_of_string v in
+    let wrap = int_roundtrip v in
+    let wrapline = show_roundtrip wrap in
+    let ub t token =
+      if impl = wrapline then
+        (wrapline, (match wrap with Some (t', r) -> c08_int_strict_ok v t' (Some r) | None -> false))
+      else (token, c08_int_strict_ok v t None) in
     let (ms, om) = (match int_roundtrip_checked v with
       | None -> ("FUEL", false)
       | Some (t, AC_ok r) -> (show_text t ^ " " ^ string_of_z r, c08_int_strict_ok v t (Some r))
-      | Some (t, AC_shift_negative) -> ("UB-SHIFT-NEGATIVE", c08_int_strict_ok v t None)
-      | Some (t, AC_shift_overflow) -> ("UB-SHIFT-OVERFLOW", c08_int_strict_ok v t None)
-      | Some (t, AC_overflow) -> ("UB-SIGNED-OVERFLOW", c08_int_strict_ok v t None)) in
+      | Some (t, (AC_shift_negative | AC_shift_overflow | AC_overflow)) -> ub t "UB") in
     let oi = (match words impl with
               | [t; p] -> (try c08_int_strict_ok v (parse_text t) (Some (z_of_string p)) with _ -> false)
               | _ -> false) in
